@@ -125,9 +125,11 @@ func C13(op Opts) *Out {
 	k := 0
 	mine := func() bool { k++; return (k-1)%op.NShards == op.Shard }
 	vals := []byte{0x01, 0x7f, 0x80, 0xff}
-	passes := []string{"", "TREZOR", "pässwörd-ﬁ"} // the last one changes under NFKD
+	// the third one changes under NFKD; the rest are ASCII passphrases with white space at either
+	// end or inside, which BIP-39 feeds into the salt verbatim
+	passes := []string{"", "TREZOR", "pässwörd-ﬁ", " ", "TREZOR ", " TREZOR", "TREZOR\n", "\tTREZOR", "TRE ZOR"}
 	seedEvery := 97
-	if op.Tier == "thorough" {
+	if op.Tier != "quick" {
 		seedEvery = 11
 	}
 	checkEntropy := func(ent []byte, withSeed bool) {
@@ -201,7 +203,7 @@ func C13(op Opts) *Out {
 				e := append([]byte{}, base...)
 				e[i] = v
 				emit(e)
-				if op.Tier == "thorough" || size == 16 || i < 3 || i >= size-3 {
+				if op.Tier != "quick" || size == 16 || i < 3 || i >= size-3 {
 					for j := i + 1; j < size; j++ {
 						for _, v2 := range vals {
 							e2 := append([]byte{}, e...)
@@ -210,6 +212,28 @@ func C13(op Opts) *Out {
 						}
 					}
 				}
+			}
+		}
+	}
+	if op.Tier == "deep" {
+		// every value of every single byte position on three backgrounds, and a full sweep of
+		// the last two bytes (the bits the checksum word shares with the entropy)
+		for _, size := range []int{16, 20, 24, 28, 32} {
+			for _, bg := range []byte{0x00, 0xa5, 0xff} {
+				for i := 0; i < size; i++ {
+					for v := 0; v < 256; v++ {
+						e := bytes.Repeat([]byte{bg}, size)
+						e[i] = byte(v)
+						n++
+						checkEntropy(e, n%seedEvery == 0)
+					}
+				}
+			}
+			for v := 0; v < 65536; v++ {
+				e := bytes.Repeat([]byte{0x3c}, size)
+				e[size-2], e[size-1] = byte(v>>8), byte(v)
+				n++
+				checkEntropy(e, n%(seedEvery*40) == 0)
 			}
 		}
 	}
